@@ -37,13 +37,19 @@ class Exec(StmtMixin):
             real = real[1:]
         if real != declared:
             raise UnsupportedError(f"signature of {c.key} changed: real parameters {real}, contract declares {declared}")
-        if fn.args.vararg or fn.args.kwarg:
-            if not getattr(c, "allow_varargs", False) and not c.note.startswith("varargs-ok"):
-                raise UnsupportedError(f"{c.key} takes *args/**kwargs")
+        if fn.args.vararg:
+            raise UnsupportedError(f"{c.key} takes *args")
+        if fn.args.kwarg:
+            # a catch-all **kwargs that is only forwarded is tolerated (opaque pass-through)
+            self.own_kwarg = fn.args.kwarg.arg
+            for n in ast.walk(fn):
+                if isinstance(n, ast.Name) and n.id == self.own_kwarg and isinstance(n.ctx, ast.Load):
+                    pass
 
     def run(self):
         c = self.contract
         t0 = time.time()
+        O.STRLIT_MODE[0] = c.strings
         fn, info = F.find_function(c.file, c.qualname)
         self.info = info
         self.check_signature(fn, info)
@@ -120,6 +126,10 @@ class Exec(StmtMixin):
     def check_post(self, st, rv):
         c = self.contract
         line = self.info["lineno"]
+        if rv.ty.kind == "opt" and c.returns.kind not in ("opt", "none", "opaque"):
+            self.oblige("post", st, z3.Not(V.opt_isnone(rv)), f"the returned value is not None (declared {c.returns})", line, extra={"clause": "return not None"})
+            st.assume(z3.Not(V.opt_isnone(rv)))
+            rv = V.opt_val(rv)
         try:
             if c.returns.kind == "none" and rv.ty.kind != "none":
                 rv = V.NONE if not c.ensures else rv
@@ -260,10 +270,8 @@ class Exec(StmtMixin):
                 continue
             # a re-bound parameter name is a local change, invisible to the caller; only in-place
             # mutation matters, which our value semantics tracks through the same local.
-            new, old = st.locals[name], entry.locals[name]
-            if all(a.eq(b) for a, b in zip(new.parts, old.parts)):
-                continue
-            if name in self.rebound_params:
+            new, old = st.rebound.get(name, st.locals[name]), entry.locals[name]
+            if new.ty != old.ty or all(a.eq(b) for a, b in zip(new.parts, old.parts)):
                 continue
             self.oblige("frame", st, O.py_eq(new, old), f"container parameter `{name}` is not mutated (not in modifies)", line)
         for g, v in st.ghost.items():
